@@ -21,7 +21,9 @@ R2  (3) the branch test that compares self.signature with the HMAC-derived value
 R3  (1)(3) structural decomposition of the signer and verifier terms HMAC(key, msg, digest).digest()[:N] after inlining
     (argument binding, update() feeding), structural comparison of the two; (5) digest names taken from the code.
 R4  (6) constant folding of the truncation / read lengths; (3)(4) `<size> - K` recognised in polynomial normal form
-    (absint.sympoly); negative-slice framing [:-K] / [-K:] structurally.  Reference constant: 16 (property text).
+    (absint.sympoly); negative-slice framing [:-K] / [-K:] structurally; fields cut out of one buffer at computed offsets
+    (offset walk): slice bounds as polynomials over the loop-head values (body walked once, see R7), ciphertext length
+    == <size> - 16 and signature length == 16 in normal form.  Reference constant: 16 (property text).
 R5  pad(): (3) per return statement the returned term `<data> + <fill> * <count>` / `<data>.ljust(<width>, <fill>)` with
     temporaries inlined; the count is compared with 16 - len(data) % 16 in polynomial normal form (absint.SymPoly) over the
     atoms len(data) and (P) % m, using the lemmas L1-L6 stated in `_PadTerms` (division identity, residue unchanged by
@@ -37,8 +39,17 @@ R7  (1)(3) writer term <packed length> + ciphertext + signature: pack call decod
     keywords included) or (6) the struct-format / cstruct type tables; length argument compared with the payload
     structurally; readers: field sources located by role, (2) read order by dominance / evaluation order inside one
     statement, nothing else moving the stream in between; length-prefix decoder recognised structurally ((6) format
-    tables); the loop is analysed once with its loop-carried buffer / stream symbolic: loop test and advance compared in
-    polynomial normal form (3)(4).
+    tables); the loop is analysed once with its loop-carried buffer / stream / offset symbolic (`_BodyWalk`: one pass over
+    the straight-line body, every name assigned in the loop symbolic at the loop head, terms built by substituting
+    definitions - no unrolling, no data): advance compared in polynomial normal form (3)(4).  Offset walk over one
+    buffer: header, ciphertext and signature are adjacent slices starting at the head offset, the offset starts at the
+    constant 0 (6) and ends each round at the end of the signature (normal form).
+    "loop runs while a complete frame is left" (all loop shapes): the continuation condition - conjuncts of the loop test
+    and negated exit-only guards, in head terms - is read as predicates `remaining op K` of the remaining length
+    (len(buffer), end - tell(), len(buffer) - offset; polynomial normal form, K folded (6)); (4) interval reading of each
+    predicate: its truth set must contain [36, +inf) and the condition must fail at 0, where 36 = 4 + 16 + 16 is the
+    smallest frame the writer produces (4-byte prefix, one AES block because pad() appends 1..16 bytes, 16-byte
+    signature).  A conjunct that is not such a predicate makes the obligation undecided.
 R8  (1)(3) keyword binding of the decrypt_packet call (verify <- self.verify_hmac, one key set via ** _asdict() or
     explicit fields), field / parameter name tables (6), the stored flag traced to the constructor parameter and its default.
 """
@@ -50,8 +61,8 @@ import copy
 
 from csverif import absint
 from csverif.astutil import (
-    assignments_to, bind_args, compare_parts, const_eval, dotted, fn_calls, is_const, kwarg, NotConst, params, src,
-    statements, param_defaults,
+    assignments_to, bind_args, compare_parts, conjuncts, const_eval, dotted, fn_calls, head, is_const, kwarg, nnf, NotConst, params,
+    src, statements, param_defaults,
 )
 from csverif.cfg import ENTRY, EXIT
 from csverif.q import FuncView, calls_to, inline, origin, raise_class, tv_eval
@@ -229,7 +240,10 @@ def run(ctx):
         "normal form over the atoms len(data) and (P) % m (stated lemmas), with residue facts from the dominating branch "
         "conditions, cross-checked by interval abstract interpretation of the count (len(data) >= 0, block size 16); "
         "cipher construction agreement, framing writer/reader agreement (subjects located by role: the arguments that feed the "
-        "EncryptedPacket fields, the stream they are read from, the decoded length prefix), keyword binding of "
+        "EncryptedPacket fields, the stream / buffer / offset they are taken from, the decoded length prefix; the reader loop is "
+        "walked once with its loop-carried values symbolic, and its continuation condition, read as an interval predicate of the "
+        "number of bytes left, must hold whenever a complete frame - at least 4 + 16 + 16 = 36 bytes - is left and fail when "
+        "nothing is left), keyword binding of "
         "decrypt_packet from BeaconKeys. Decides these structural necessary conditions on every path without executing or "
         "interpreting the analysed code on concrete inputs; does not decide AES/HMAC behaviour or plaintext equality."
     )
@@ -239,6 +253,10 @@ def run(ctx):
         "plaintext equality for all inputs",
         "pad() spellings outside the recognised terms (<data> + <fill> * <count>, <data>.ljust(<width>, <fill>); counts built "
         "from + - * // % & `or` on len(data) and constants): reported as undecided, e.g. loops that append, divmod unpacking, join()",
+        "framing readers whose loop body is not a straight line of assignments and exit-only guards (try/except around the "
+        "reads, for-loops, conditional advances) or whose continuation condition is not a comparison of the remaining length "
+        "with a constant: reported as undecided",
+        "behaviour of the framing readers on malformed streams (truncated frames, trailing garbage shorter than a frame)",
     ]
     rep.trusted_base = [
         "CPython ast", "networkx dominators", "AES.block_size == 16 (pycryptodome constant)",
@@ -250,6 +268,10 @@ def run(ctx):
         "lemma L5: 0 <= x % m <= m - 1 and every residue occurs for some len(data) in 0..m-1",
         "lemma L6: x & (2**j - 1) == x % 2**j for Python ints",
         "bytes semantics: b * k is empty for k <= 0; ljust(w, f) appends max(0, w - len) copies of the one-byte f",
+        "smallest frame: dumps() writes a 4-byte prefix, the ciphertext is at least one AES block (R5: pad() appends 1..16 "
+        "bytes) and the signature is 16 bytes (R4), so at a frame boundary of a well-formed stream either 0 or >= 36 bytes are left",
+        "len(bytes(b)) == len(memoryview(b)) == len(b), and slices of a copy / view hold the same bytes",
+        "interval reading of `r op K` for an integer r >= 0 (r > K holds exactly on [K + 1, +inf), r >= K on [K, +inf), ...)",
     ]
     rep.assumptions = ["hmac.new / AES.new behave as documented", "no monkey-patching of c2 module functions at run time",
                        "pad() is called with its default block size (the call in encrypt_data is checked by R5)"]
@@ -723,12 +745,13 @@ def _r4_reader(ctx, f):
                 ctx.undecided("R4", "TABLE", f, "signature read", f"signature read length {src(m['n_sig'])} is not a constant", m["sig"])
         else:
             cs, ss = m["ct"].slice, m["sig"].slice
-            kc = _cval(cs.upper) if (cs.lower is None or is_const(cs.lower, 0)) and cs.step is None and cs.upper is not None else None
-            ks = _cval(ss.lower) if ss.upper is None and ss.step is None and ss.lower is not None else None
-            if type(kc) is int and type(ks) is int and kc < 0 and ks < 0:
-                ctx.ob("R4", "TABLE", f, "ciphertext read", -kc == SIG_LEN, f"ciphertext is [{src(cs)}] of the frame (all but the last 16 bytes required)", m["ct"])
-                ctx.ob("R4", "TABLE", f, "signature read", -ks == SIG_LEN, f"signature is [{src(ss)}] of the frame (the last 16 bytes required)", m["sig"])
+            tail = _tail_form(m)
+            if tail is not None:
+                ctx.ob("R4", "TABLE", f, "ciphertext read", tail[0] == SIG_LEN, f"ciphertext is [{src(cs)}] of the frame (all but the last 16 bytes required)", m["ct"])
+                ctx.ob("R4", "TABLE", f, "signature read", tail[1] == SIG_LEN, f"signature is [{src(ss)}] of the frame (the last 16 bytes required)", m["sig"])
                 sites += 2
+            elif _is_walk(f, m):
+                sites += _r4_walk(ctx, f, m)
             else:
                 ctx.undecided("R4", "TABLE", f, "framing reads", f"slices [{src(cs)}] / [{src(ss)}] are not of the form [:-K] / [-K:]", m["ctor"])
     return sites
@@ -1375,6 +1398,588 @@ def _r7_order(ctx, f, m, text="read order"):
            "the signature is read from the stream before the ciphertext", m["ctor"])
 
 
+# ---------------------------------------------------------------------------- R7: the loop runs while a frame is left
+# Smallest frame the writer produces: 4-byte length prefix + one AES block (pad() always appends 1..16 bytes, so the
+# ciphertext of a 0..15 byte plaintext is 16 bytes) + 16-byte signature.  A well-formed stream of frames therefore has
+# either nothing or at least MIN_FRAME bytes left at every frame boundary.
+HDR_LEN = 4
+MIN_FRAME = HDR_LEN + BLOCK + SIG_LEN
+
+_OPS = {ast.Gt: ">", ast.GtE: ">=", ast.Lt: "<", ast.LtE: "<=", ast.Eq: "==", ast.NotEq: "!="}
+_MIRROR = {">": "<", ">=": "<=", "<": ">", "<=": ">=", "==": "==", "!=": "!="}
+_NEGATE = {">": "<=", ">=": "<", "<": ">=", "<=": ">", "==": "!=", "!=": "=="}
+
+
+class _NoView(ast.NodeTransformer):
+    def visit_Call(self, node):
+        self.generic_visit(node)
+        if dotted(node.func) in ("bytes", "bytearray", "memoryview") and len(node.args) == 1 and not node.keywords:
+            return node.args[0]
+        return node
+
+
+def _noview(e):
+    """A copy of e with bytes(x) / bytearray(x) / memoryview(x) replaced by x: a copy or view of a byte string has the
+    same length and the same bytes under slicing."""
+    return _NoView().visit(copy.deepcopy(e))
+
+
+def _fpoly(e, hook=None):
+    """Polynomial normal form of an integer expression of a framing reader: AES.block_size is the library constant 16,
+    `<call>[i]` (an element of an unpack result) is an opaque atom."""
+    def h(x):
+        if hook is not None:
+            r = hook(x)
+            if r is not None:
+                return r
+        if isinstance(x, ast.Attribute) and dotted(x) in _KNOWN_ATTRS:
+            return absint.SymPoly.const(_KNOWN_ATTRS[dotted(x)])
+        if isinstance(x, ast.Subscript) and not isinstance(x.slice, ast.Slice) and isinstance(x.value, ast.Call):
+            return absint.SymPoly.atom(src(x))
+        return None
+
+    return absint.sympoly(e, h) if e is not None else None
+
+
+def _int_const(p):
+    """Integer value of a constant polynomial, else None."""
+    c = p.const_value() if p is not None else None
+    return int(c) if c is not None and c.denominator == 1 else None
+
+
+def _rem_conjuncts(test, polyfn, rems, truthy):
+    """The conjuncts of a loop-continuation test read as predicates of the number of bytes that are left.
+    `rems` are the polynomials that denote that number (at the loop head, ...), `polyfn` the normal form, `truthy(e)`
+    the index into rems when the truth value of e is `<that many bytes> >= 1` (a buffer used as a test).
+    -> [dict(text, pred=(op, K) | None, idx)]: the conjunct holds iff rems[idx] op K; pred None = not understood.
+    Constantly true conjuncts are dropped."""
+    out = []
+
+    def add(text, pred=None, idx=None):
+        out.append(dict(text=text, pred=pred, idx=idx))
+
+    def cmp_pred(l, o, r):
+        for a, b, oo in ((l, r, o), (r, l, _MIRROR[o])):
+            if isinstance(b, ast.Constant) and isinstance(b.value, bytes) and b.value == b"" and oo in ("==", "!=") and truthy(a) is not None:
+                return ((">=", 1) if oo == "!=" else ("<=", 0)) + (truthy(a),)
+        pl, pr = polyfn(l), polyfn(r)
+        if pl is None or pr is None:
+            return None
+        d = pl - pr
+        for j, rem in enumerate(rems):
+            c0 = _int_const(d - rem)
+            if c0 is not None:
+                return (o, -c0, j)  # rem + c0 o 0
+            c0 = _int_const(d + rem)
+            if c0 is not None:
+                return (_MIRROR[o], c0, j)  # c0 - rem o 0
+        return None
+
+    def one(c):
+        neg = False
+        c = _strip_bool(c)
+        while isinstance(c, ast.UnaryOp) and isinstance(c.op, ast.Not):
+            neg = not neg
+            c = _strip_bool(c.operand)
+        text = ("not " if neg else "") + src(c)
+        if isinstance(c, ast.Constant):
+            if bool(c.value) == neg:
+                add(text)  # constantly false
+            return
+        if isinstance(c, ast.Compare):
+            parts = compare_parts(c, mirrored=False)
+            if neg and len(parts) != 1:
+                add(text)
+                return
+            for l, op, r in parts:
+                o = _OPS.get(type(op))
+                p = cmp_pred(l, o, r) if o else None
+                if p is None:
+                    add(text)
+                else:
+                    add(text, (_NEGATE[p[0]] if neg else p[0], p[1]), p[2])
+            return
+        i = truthy(c)
+        if i is None:
+            pl = polyfn(c)  # a length used for its truth value
+            for j, rem in enumerate(rems):
+                if pl is not None and pl == rem:
+                    i = j
+                    break
+        if i is not None:
+            add(text, ("<=", 0) if neg else (">=", 1), i)
+        else:
+            add(text)
+
+    for c in conjuncts(nnf(_truth(test))):
+        one(c)
+    return out
+
+
+def _pred_gap(op, k):
+    """Interval reading of the predicate `rem op k` on the integer rem >= 0:
+    (the part (lo, hi | None = unbounded) of [MIN_FRAME, +inf) on which it is false | None, whether it holds at rem == 0)."""
+    m = MIN_FRAME
+    if op == ">":  # holds on [k + 1, +inf)
+        return ((m, k) if k >= m else None), 0 > k
+    if op == ">=":  # holds on [k, +inf)
+        return ((m, k - 1) if k > m else None), 0 >= k
+    if op == "!=":
+        return ((k, k) if k >= m else None), k != 0
+    if op == "<":  # holds on (-inf, k - 1]
+        return (max(m, k), None), 0 < k
+    if op == "<=":
+        return (max(m, k + 1), None), 0 <= k
+    return ((m if k != m else m + 1), None), k == 0  # ==
+
+
+def _frames_left_verdict(conj, head=(0,), other_exits=False):
+    """Necessary condition on the continuation test of a framing loop: it holds whenever a complete frame is left (every
+    remaining length >= MIN_FRAME) and fails when nothing is left.  -> (status 'ok' | 'violated' | 'undecided', detail)."""
+    gaps, unknown, zero_excluded, nonhead = [], [], False, False
+    for c in conj:
+        if c["pred"] is None:
+            unknown.append(c["text"])
+            continue
+        gap, at_zero = _pred_gap(*c["pred"])
+        if gap is not None:
+            rng = f"{gap[0]} bytes" if gap[0] == gap[1] else (f"{gap[0]}..{gap[1]} bytes" if gap[1] is not None else f"{gap[0]} or more bytes")
+            gaps.append(f"`{c['text']}` (remaining {c['pred'][0]} {c['pred'][1]}) is false when {rng} are left")
+        if c["idx"] in head:
+            zero_excluded = zero_excluded or not at_zero
+        else:
+            nonhead = True
+    why = f"a frame of {MIN_FRAME} bytes ({HDR_LEN}-byte length + one AES block + {SIG_LEN}-byte signature, i.e. a plaintext of 0..15 bytes) is a complete packet"
+    if gaps:
+        return "violated", "the loop stops although a complete frame is left: " + "; ".join(gaps) + " - " + why
+    if unknown:
+        return "undecided", "continuation condition not understood as a test of the number of bytes left: " + "; ".join(f"`{u}`" for u in unknown)
+    if not zero_excluded:
+        if other_exits or nonhead:
+            return "undecided", "the loop test does not fail when nothing is left and the other exits of the loop are not understood"
+        return "violated", "the continuation test also holds when nothing is left: the body runs once more after the last frame"
+    return "ok", "the continuation test holds for every remaining length >= " + f"{MIN_FRAME} (the smallest frame) and fails when nothing is left: " \
+        + "; ".join(f"`{c['text']}`" for c in conj)
+
+
+def _loop_exits(loop, skip=()):
+    """Does the loop contain break / return / raise / try statements (outside the statements in `skip`)?"""
+    skip_ids = {id(x) for s in skip for x in ast.walk(s)}
+    return any(isinstance(x, (ast.Break, ast.Return, ast.Raise, ast.Try)) and id(x) not in skip_ids for st in loop.body for x in ast.walk(st))
+
+
+def _leaves(body):
+    return bool(body) and isinstance(body[-1], (ast.Break, ast.Return, ast.Raise))
+
+
+def _leading_guards(loop):
+    """The exit-only `if` statements the loop body starts with (they are evaluated in the state of the loop head)."""
+    out = []
+    for st in loop.body:
+        if isinstance(st, ast.If) and not st.orelse and _leaves(st.body):
+            out.append(st)
+        else:
+            break
+    return out
+
+
+FTEXT = "loop runs while a complete frame is left"
+
+
+def _frames_left_ob(ctx, g, loop, conj, head=(0,), other_exits=False):
+    status, detail = _frames_left_verdict(conj, head, other_exits)
+    if status == "undecided":
+        ctx.undecided("R7", "LOOP", g, FTEXT, detail, loop)
+    else:
+        ctx.ob("R7", "LOOP", g, FTEXT, status == "ok", detail, loop)
+    return status
+
+
+# ---------------------------------------------------------------------------- R4 / R7: offset walk over one buffer
+class _Sub(ast.NodeTransformer):
+    def __init__(self, env):
+        self.env = env
+
+    def visit_Name(self, node):
+        if isinstance(node.ctx, ast.Load) and node.id in self.env:
+            return copy.deepcopy(self.env[node.id])
+        return node
+
+    def visit_Lambda(self, node):
+        return node
+
+
+class _BodyWalk:
+    """The body of a loop walked ONCE, statement by statement, with every name that is assigned in the loop symbolic at
+    the loop head (device 3: a term for each value by substituting definitions; no unrolling, no data).  env maps a name
+    to the term of its current value over the head values; `at` holds the env before each top-level statement, `guards`
+    the exit-only `if` statements of the body with their tests in head terms.  `why` is set when the body is not a
+    straight line of assignments, expression statements and exit-only guards (then nothing is claimed)."""
+
+    def __init__(self, g, loop):
+        self.g, self.loop = g, loop
+        self.carried = set()
+        for st in loop.body:
+            for x in ast.walk(st):
+                if isinstance(x, ast.Name) and isinstance(x.ctx, ast.Store):
+                    self.carried.add(x.id)
+        self.env, self.at, self.guards, self.why = {}, {}, [], None
+        self.other_exits = False
+        for st in loop.body:
+            if self.why:
+                break
+            self.at[id(st)] = dict(self.env)
+            self._stmt(st)
+        self.end = dict(self.env)
+
+    def sub(self, e, env=None):
+        return _Sub(self.env if env is None else env).visit(copy.deepcopy(e))
+
+    def value(self, e, st=None, env=None):
+        """Term of expression e evaluated at top-level statement st (or in env), temporaries defined outside the loop inlined."""
+        env = self.at[id(st)] if env is None else env
+        return _noview(_inl(self.g, self.sub(e, env), keep=self.carried))
+
+    def _stmt(self, st):
+        if any(isinstance(x, ast.NamedExpr) for x in ast.walk(st)):
+            self.why = "assignment expression inside the loop body"
+            return
+        if isinstance(st, ast.Assign) and len(st.targets) == 1:
+            t, v = st.targets[0], st.value
+            if isinstance(t, ast.Name):
+                self.env[t.id] = self.sub(v)
+                return
+            if isinstance(t, (ast.Tuple, ast.List)) and isinstance(v, (ast.Tuple, ast.List)) and len(t.elts) == len(v.elts) \
+                    and all(isinstance(x, ast.Name) for x in t.elts):
+                vals = [self.sub(x) for x in v.elts]
+                for x, val in zip(t.elts, vals):
+                    self.env[x.id] = val
+                return
+            if not any(isinstance(x, ast.Name) and isinstance(x.ctx, ast.Store) for x in ast.walk(t)):
+                return  # attribute / item store: no local is bound
+            self.why = f"`{src(st)}` binds names by unpacking"
+            return
+        if isinstance(st, ast.AnnAssign) and isinstance(st.target, ast.Name):
+            if st.value is not None:
+                self.env[st.target.id] = self.sub(st.value)
+            return
+        if isinstance(st, ast.AugAssign) and isinstance(st.target, ast.Name) and isinstance(st.op, (ast.Add, ast.Sub)):
+            cur = self.env.get(st.target.id, ast.Name(id=st.target.id, ctx=ast.Load()))
+            self.env[st.target.id] = ast.BinOp(left=copy.deepcopy(cur), op=st.op, right=self.sub(st.value))
+            return
+        if isinstance(st, (ast.Expr, ast.Pass, ast.Assert)):
+            return
+        if isinstance(st, ast.If) and not st.orelse and _leaves(st.body):
+            self.guards.append((st, dict(self.env)))
+            return
+        if isinstance(st, ast.If) and not any(isinstance(x, (ast.Name)) and isinstance(x.ctx, ast.Store) for x in ast.walk(st)) \
+                and not any(isinstance(x, (ast.Continue, ast.Yield, ast.YieldFrom)) for x in ast.walk(st)):
+            self.other_exits = self.other_exits or any(isinstance(x, (ast.Break, ast.Return, ast.Raise)) for x in ast.walk(st))
+            return
+        self.why = f"`{head(st)}` in the loop body: not a straight line of assignments and exit guards"
+
+
+def _split_poly(p):
+    """p == ATOM - K with K an integer: (ATOM name, K); else None."""
+    if p is None:
+        return None
+    c = p.terms.get((), 0)
+    rest = {k: v for k, v in p.terms.items() if k != ()}
+    if len(rest) != 1 or c.denominator != 1:
+        return None
+    (mono, coef), = rest.items()
+    if len(mono) != 1 or coef != 1:
+        return None
+    return mono[0], -int(c)
+
+
+def _tail_form(m):
+    """slice-mode packet whose fields are `<frame>[:-K]` / `<frame>[-K:]`: (K of the ciphertext, K of the signature) or None."""
+    cs, ss = m["ct"].slice, m["sig"].slice
+    kc = _cval(cs.upper) if (cs.lower is None or is_const(cs.lower, 0)) and cs.step is None and cs.upper is not None else None
+    ks = _cval(ss.lower) if ss.upper is None and ss.step is None and ss.lower is not None else None
+    if type(kc) is int and type(ks) is int and kc < 0 and ks < 0:
+        return -kc, -ks
+    return None
+
+
+def _is_walk(g, m):
+    """Is a slice-mode packet cut out of a buffer that is NOT rebound in the enclosing loop (so the position must be
+    carried by an offset), as opposed to a buffer / view that is cut down each round?"""
+    if m.get("mode") != "slice":
+        return False
+    fv = FuncView.of(g.node)
+    loop = fv.enclosing(m["ctor"], (ast.While, ast.For, ast.AsyncFor))
+    base = m["base_orig"]
+    if _tail_form(m) is not None:
+        if not (isinstance(base, ast.Subscript) and isinstance(base.slice, ast.Slice)):
+            return False
+        base = base.value
+    if loop is None:
+        return False
+    bound = {x.id for st in loop.body for x in ast.walk(st) if isinstance(x, ast.Name) and isinstance(x.ctx, ast.Store)}
+    buf = _inl(g, base, keep=bound)
+    return not any(isinstance(x, ast.Name) and x.id in bound for x in ast.walk(buf))
+
+
+class _Hdr(ast.NodeTransformer):
+    """Replaces, inside a length-decoding expression, the bytes taken from the frame buffer by a placeholder
+    `__frame__[:W]` and records where they start: hits = [(lower bound AST | None, upper bound AST | None)]."""
+
+    def __init__(self, bsrc, ctx, g):
+        self.bsrc, self.ctx, self.g, self.hits = bsrc, ctx, g, []
+
+    def _ph(self, width=None):
+        n = ast.Name(id="__frame__", ctx=ast.Load())
+        if width is None:
+            return n
+        return ast.Subscript(value=n, slice=ast.Slice(lower=None, upper=ast.Constant(value=width), step=None), ctx=ast.Load())
+
+    def visit(self, node):
+        if isinstance(node, ast.Subscript) and isinstance(node.slice, ast.Slice) and node.slice.step is None and src(node.value) == self.bsrc:
+            lo, hi = node.slice.lower, node.slice.upper
+            self.hits.append((lo, hi))
+            w = None
+            if hi is not None:
+                plo = _fpoly(lo) if lo is not None else absint.SymPoly.const(0)
+                phi = _fpoly(hi)
+                w = _int_const(phi - plo) if plo is not None and phi is not None else None
+            return self._ph(w if w is not None and w >= 0 else None)
+        if isinstance(node, ast.Call) and _ext(self.ctx, self.g, node) == "struct.unpack_from" and len(node.args) == 3 and not node.keywords \
+                and src(node.args[1]) == self.bsrc:
+            self.hits.append((node.args[2], None))
+            return ast.Call(func=node.func, args=[node.args[0], self._ph()], keywords=[])
+        if isinstance(node, ast.expr) and src(node) == self.bsrc:
+            self.hits.append((None, None))
+            return self._ph()
+        return self.generic_visit(node)
+
+
+def _walk(ctx, g, m):
+    """Offset-walk reading of a slice-mode packet: the ciphertext and signature bounds [A:B] / [C:D] inside the buffer as
+    polynomials over the values at the loop head.  -> dict, or a str saying why the shape is not understood."""
+    if "walk" not in m:
+        try:
+            m["walk"] = _walk0(ctx, g, m)
+        except RecursionError:
+            m["walk"] = "expressions too deep"
+    return m["walk"]
+
+
+def _walk0(ctx, g, m):
+    fv = FuncView.of(g.node)
+    loop = fv.enclosing(m["ctor"], (ast.While, ast.For, ast.AsyncFor))
+    if not isinstance(loop, ast.While):
+        return "the packet is not cut out of the buffer inside a while loop"
+    bw = _BodyWalk(g, loop)
+    if bw.why:
+        return bw.why
+    top = {id(st) for st in loop.body}
+
+    def at(node):
+        st = fv.stmt_of(node)
+        return st if st is not None and id(st) in top and id(st) in bw.at else None
+
+    def bounds(sub):
+        st = at(sub)
+        if st is None or sub.slice.step is not None:
+            return None
+        lo = bw.value(sub.slice.lower, st) if sub.slice.lower is not None else ast.Constant(value=0)
+        hi = bw.value(sub.slice.upper, st) if sub.slice.upper is not None else None
+        return st, lo, hi
+
+    tail = _tail_form(m)
+    if tail is not None:
+        fr = m["base_orig"]
+        b = bounds(fr)
+        if b is None or b[2] is None:
+            return "the frame slice is not evaluated in the straight-line part of the loop body or is open-ended"
+        st, lo, hi = b
+        buf = bw.value(fr.value, st)
+        A, B = lo, ast.BinOp(left=hi, op=ast.Sub(), right=ast.Constant(value=tail[0]))
+        C, D = ast.BinOp(left=hi, op=ast.Sub(), right=ast.Constant(value=tail[1])), hi
+    else:
+        bc, bs = bounds(m["ct"]), bounds(m["sig"])
+        if bc is None or bs is None or bc[2] is None or bs[2] is None:
+            return "the field slices are not evaluated in the straight-line part of the loop body or are open-ended"
+        buf = bw.value(m["ct"].value, bc[0])
+        if src(buf) != src(bw.value(m["sig"].value, bs[0])):
+            return "ciphertext and signature are cut from different buffers"
+        (A, B), (C, D) = bc[1:], bs[1:]
+    if any(isinstance(x, ast.Name) and x.id in bw.carried for x in ast.walk(buf)):
+        return f"the buffer `{src(buf)}` is rebound inside the loop"
+    polys = [_fpoly(x) for x in (A, B, C, D)]
+    if any(p is None for p in polys):
+        return "slice bounds have no polynomial normal form"
+    if any(_int_const(p) is not None and _int_const(p) < 0 for p in polys):
+        return "slice bounds counted from the end of the buffer"
+    return dict(loop=loop, bw=bw, buf=buf, bsrc=src(buf), exprs=(A, B, C, D), polys=polys)
+
+
+def _walk_size(ctx, g, w):
+    """The length prefix of an offset walk: the atom S with (end of ciphertext) - (start of ciphertext) == S - K, decoded.
+    -> dict(node, K, dec = _size_src result | None, start = polynomial of the offset the decoded bytes start at | None)"""
+    A, B, _C, _D = w["exprs"]
+    pa, pb = w["polys"][0], w["polys"][1]
+    sp = _split_poly(pb - pa)
+    if sp is None:
+        return None
+    node = None
+    for e in (B, A):
+        for x in _dfs(e):
+            if isinstance(x, (ast.Call, ast.Subscript, ast.Name, ast.Attribute)) and src(x) == sp[0]:
+                node = x
+                break
+        if node is not None:
+            break
+    out = dict(node=node, K=sp[1], atom=sp[0], dec=None, start=None, hits=0)
+    if node is None or isinstance(node, (ast.Name, ast.Attribute)):
+        return out
+    h = _Hdr(w["bsrc"], ctx, g)
+    rewritten = h.visit(copy.deepcopy(node))
+    out["hits"] = len(h.hits)
+    if len(h.hits) != 1:
+        return out
+    out["dec"] = _size_src(ctx, g, ast.fix_missing_locations(rewritten))
+    lo = h.hits[0][0]
+    out["start"] = _fpoly(lo) if lo is not None else absint.SymPoly.const(0)
+    return out
+
+
+def _r4_walk(ctx, f, m):
+    """Signature-length sites of an offset walk: ciphertext length == <size> - 16, signature length == 16."""
+    w = _walk(ctx, f, m)
+    if isinstance(w, str):
+        ctx.undecided("R4", "TABLE", f, "framing reads", "fields are slices of one buffer at computed offsets; " + w, m["ctor"])
+        return 0
+    sites = 0
+    pa, pb, pc, pd = w["polys"]
+    sp = _split_poly(pb - pa)
+    if sp is None:
+        k0 = _int_const(pb - pa)
+        if k0 is not None:
+            ctx.ob("R4", "TABLE", f, "ciphertext read", False, f"ciphertext length is the constant {k0}, not <frame size> - 16", m["ct"])
+        else:
+            ctx.undecided("R4", "TABLE", f, "ciphertext read", f"ciphertext length {pb - pa!r} is not of the form <size> - K", m["ct"])
+    else:
+        ctx.ob("R4", "TABLE", f, "ciphertext read", sp[1] == SIG_LEN, f"ciphertext length is {pb - pa!r}: subtracts {sp[1]} (16 required)", m["ct"])
+        sites += 1
+    k = _int_const(pd - pc)
+    if k is not None:
+        ctx.ob("R4", "TABLE", f, "signature read", k == SIG_LEN, f"signature slice length {k} (16 required)", m["sig"])
+        sites += 1
+    else:
+        ctx.undecided("R4", "TABLE", f, "signature read", f"signature slice length {pd - pc!r} is not a constant", m["sig"])
+    return sites
+
+
+def _r7_walk(ctx, g, m, ptext, ltext):
+    """Client reader that walks one buffer by an offset: header / ciphertext / signature are adjacent slices starting at
+    the offset of the loop head, the offset ends each round behind the signature, starts at 0, and the loop runs while a
+    complete frame is left."""
+    w = _walk(ctx, g, m)
+    if isinstance(w, str):
+        ctx.undecided("R7", "AGREE", g, ptext, "packet fields are slices of one buffer at computed offsets; " + w, m["ctor"])
+        ctx.undecided("R7", "LOOP", g, ltext, w, m["ctor"])
+        return
+    loop, bw = w["loop"], w["bw"]
+    pa, pb, pc, pd = w["polys"]
+    # ---------------- field order: the signature is what follows the ciphertext
+    gap = pc - pb
+    if not gap.terms:
+        ctx.ob("R7", "AGREE", g, "read order", True, "the signature slice starts where the ciphertext slice ends", m["ctor"])
+    elif _int_const(gap) is not None:
+        ctx.ob("R7", "AGREE", g, "read order", False, f"the signature slice starts at {pc!r} but the ciphertext ends at {pb!r}", m["ctor"])
+    else:
+        ctx.undecided("R7", "AGREE", g, "read order", f"signature start {pc!r} not comparable with the ciphertext end {pb!r}", m["ctor"])
+    # ---------------- the length prefix
+    sz = _walk_size(ctx, g, w)
+    pos = None
+    if sz is None or sz["dec"] is None or sz["start"] is None:
+        ctx.undecided("R7", "AGREE", g, ptext, "the expression that decodes the frame length was not recognised"
+                      + (f" ({src(sz['node'])})" if sz and sz.get("node") is not None else ""), m["ctor"])
+    else:
+        size = sz["dec"]
+        fmt_ok = size["width"] == HDR_LEN and size["order"] == "big" and not size["signed"]
+        detail = (f"frame length decoded as {size['width']}-byte {size['order']}-endian {'signed' if size['signed'] else 'unsigned'} integer from "
+                  f"`{w['bsrc']}` at offset {sz['start']!r}; the ciphertext starts at offset {pa!r}")
+        if size["width"] is None or size["order"] is None:
+            ctx.undecided("R7", "AGREE", g, ptext, detail + "; width or byte order of the decoding could not be determined", m["ctor"])
+        else:
+            off = pa - sz["start"]
+            adjacent = _int_const(off) == HDR_LEN
+            if fmt_ok and not adjacent and _int_const(off) is None and len(off.atoms()) > 1:
+                ctx.undecided("R7", "AGREE", g, ptext, detail + "; the two offsets are not comparable", m["ctor"])
+            else:
+                ctx.ob("R7", "AGREE", g, ptext, fmt_ok and adjacent, detail + ("" if adjacent else
+                       f" - the length of every frame must be the {HDR_LEN} bytes directly in front of its ciphertext"), m["ctor"])
+            name = None
+            if len(sz["start"].terms) == 1:
+                (mono, coef), = sz["start"].terms.items()
+                if len(mono) == 1 and coef == 1 and mono[0] in bw.carried:
+                    name = mono[0]
+            pos = name
+    if pos is None:
+        # the position may still be found as the only loop-carried name of the ciphertext start
+        cands = [a for a in pa.atoms() if a in bw.carried]
+        sp = _split_poly(pa)
+        if sp is not None and sp[0] in bw.carried and len(cands) == 1:
+            pos = sp[0]
+    if pos is None:
+        ctx.undecided("R7", "LOOP", g, ltext, "the offset that carries the position from one frame to the next was not located", loop)
+        return
+    # ---------------- the offset starts at 0 and ends each round behind the signature
+    outside = [(st, v) for st, v in assignments_to(g.node, pos) if not _in(loop, st)]
+    starts = [_int_const(_fpoly(_inl(g, v))) if v is not None else None for _st, v in outside]
+    if not outside or any(s is None for s in starts):
+        ctx.undecided("R7", "LOOP", g, "walk starts at the first frame", f"initial value of `{pos}` is not a constant", loop)
+    else:
+        ctx.ob("R7", "LOOP", g, "walk starts at the first frame", all(s == 0 for s in starts), f"`{pos}` starts at {sorted(set(starts))} (0 required)", loop)
+    if pos not in bw.end:
+        ctx.ob("R7", "LOOP", g, ltext, False, f"offset `{pos}` is never advanced inside the loop", loop)
+    else:
+        pe = _fpoly(bw.value(ast.Name(id=pos, ctx=ast.Load()), env=bw.end))
+        if pe is None:
+            ctx.undecided("R7", "LOOP", g, ltext, f"the value of `{pos}` at the end of the loop body has no polynomial normal form", loop)
+        elif pe == pd:
+            ctx.ob("R7", "LOOP", g, ltext, True, f"`{pos}` ends each round at {pe!r}, the end of the signature", loop)
+        elif _int_const(pe - pd) is not None or (pe - pd).atoms() <= {sz["atom"] if sz else ""}:
+            ctx.ob("R7", "LOOP", g, ltext, False, f"`{pos}` ends each round at {pe!r} but the frame ends at {pd!r}", loop)
+        else:
+            ctx.undecided("R7", "LOOP", g, ltext, f"end-of-round offset {pe!r} not comparable with the end of the frame {pd!r}", loop)
+    # ---------------- the loop runs while a complete frame is left
+    total = absint.SymPoly.atom("@total")
+    bsrc = w["bsrc"]
+
+    def hook(x):
+        if isinstance(x, ast.Call) and dotted(x.func) == "len" and len(x.args) == 1 and not x.keywords and src(x.args[0]) == bsrc:
+            return total
+        return None
+
+    def polyfn(e):
+        return _fpoly(e, hook)
+
+    head_pos = absint.SymPoly.atom(pos)
+    rems = [total - head_pos]
+    pend = _fpoly(bw.value(ast.Name(id=pos, ctx=ast.Load()), env=bw.end)) if pos in bw.end else None
+    if pend is not None and pend != head_pos:
+        rems.append(total - pend)  # number of bytes left at the next loop head
+
+    def truthy(e):
+        # <buffer>[<offset>:] used as a test: something is left
+        if isinstance(e, ast.Subscript) and isinstance(e.slice, ast.Slice) and e.slice.upper is None and e.slice.step is None and src(e.value) == bsrc:
+            lo = polyfn(e.slice.lower) if e.slice.lower is not None else None
+            for j, r in enumerate(rems):
+                if lo is not None and (total - lo) == r:
+                    return j
+        return None
+
+    conj = _rem_conjuncts(bw.value(loop.test, env={}), polyfn, rems, truthy)
+    for st, env in bw.guards:
+        conj += _rem_conjuncts(nnf(bw.value(st.test, env=env), True), polyfn, rems, truthy)
+    _frames_left_ob(ctx, g, loop, conj, head=(0,), other_exits=bw.other_exits or _loop_exits(loop, skip=[st for st, _e in bw.guards]))
+
+
 def _r7_client(ctx, g):
     ptext = "length prefix: big-endian uint32 read from the packet stream"
     ltext = "loop over all framed packets"
@@ -1388,6 +1993,9 @@ def _r7_client(ctx, g):
         return
     for m in located:
         _r7_order(ctx, g, m)
+        if _is_walk(g, m):
+            _r7_walk(ctx, g, m, ptext, ltext)
+            continue
         loop = fv.enclosing(m["ctor"], (ast.While, ast.For, ast.AsyncFor))
         # ---------------- the length prefix
         size = None
@@ -1465,8 +2073,30 @@ def _in(loop, st):
     return any(x is st for x in ast.walk(loop))
 
 
+def _frames_left_buffer(ctx, g, loop, name):
+    """Modes (A) / (C): the bytes that are left are the buffer `name` at the loop head; its length is the remaining length."""
+    left = absint.SymPoly.atom("@left")
+    keep = [name.split(".")[0]]
+
+    def hook(x):
+        if isinstance(x, ast.Call) and dotted(x.func) == "len" and len(x.args) == 1 and not x.keywords and dotted(x.args[0]) == name:
+            return left
+        return None
+
+    def polyfn(e):
+        return _fpoly(e, hook)
+
+    def truthy(e):
+        return 0 if dotted(e) == name else None
+
+    guards = _leading_guards(loop)
+    conj = _rem_conjuncts(_noview(_inl(g, loop.test, keep=keep)), polyfn, [left], truthy)
+    for st in guards:
+        conj += _rem_conjuncts(nnf(_noview(_inl(g, st.test, keep=keep)), True), polyfn, [left], truthy)
+    return _frames_left_ob(ctx, g, loop, conj, other_exits=_loop_exits(loop, skip=guards))
+
+
 def _r7_loop(ctx, g, m, loop, carrier, ltext):
-    test = _strip_bool(_inl(g, loop.test))
     if carrier is None:
         ctx.undecided("R7", "LOOP", g, ltext, "the object the packet bytes are taken from was not located", loop)
         return
@@ -1486,8 +2116,7 @@ def _r7_loop(ctx, g, m, loop, carrier, ltext):
                 ctx.undecided("R7", "LOOP", g, ltext, f"stream `{carrier}` is rebound inside the loop, not as io.BytesIO(<remaining data>)", loop)
                 return
             d = srcs.pop()
-            if not _tests_truth_of(test, d):
-                ctx.undecided("R7", "LOOP", g, ltext, f"loop condition {src(loop.test)} is not the emptiness test of `{d}`", loop)
+            if _frames_left_buffer(ctx, g, loop, d) != "ok":
                 return
             rebinds = [(st, v) for st, v in assignments_to(g.node, d) if _in(loop, st)]
             if not rebinds:
@@ -1514,32 +2143,56 @@ def _r7_loop(ctx, g, m, loop, carrier, ltext):
             return
         sdef = origin(g.node, defs[0][1])
         wrapped = dotted(sdef.args[0]) if isinstance(sdef, ast.Call) and (_ext(ctx, g, sdef) or "").split(".")[-1] == "BytesIO" and len(sdef.args) == 1 else None
-        verdict = None
         raw = loop.test
         while isinstance(raw, ast.Name) and len(assignments_to(g.node, raw.id)) == 1 and assignments_to(g.node, raw.id)[0][1] is not None:
             raw = assignments_to(g.node, raw.id)[0][1]
-        for l0, op, r in compare_parts(_strip_bool(raw)):
-            l = _inl(g, l0, keep=[carrier])
-            if isinstance(l, ast.Call) and isinstance(l.func, ast.Attribute) and l.func.attr == "tell" and dotted(l.func.value) == carrier:
-                end_ok = _is_end_of(ctx, g, r, carrier, wrapped, loop)
-                if end_ok is None:
-                    continue
-                verdict = (isinstance(op, (ast.Lt, ast.NotEq)) and end_ok, f"{src(l)} {type(op).__name__} {src(r)}")
-                break
-        if verdict is None:
+        total, other, posn = absint.SymPoly.atom("@total"), absint.SymPoly.atom("@other"), absint.SymPoly.atom("@pos")
+        not_end = []
+
+        def hook(x):
+            if not isinstance(x, (ast.Name, ast.Call, ast.Attribute)):
+                return None
+            i = _inl(g, x, keep=[carrier])
+            if isinstance(i, ast.Call) and isinstance(i.func, ast.Attribute) and i.func.attr == "tell" and dotted(i.func.value) == carrier and not i.args:
+                return posn
+            k = _kconst(i)
+            if type(k) is int:
+                return absint.SymPoly.const(k)
+            ee = _is_end_of(ctx, g, x, carrier, wrapped, loop)
+            if ee is True:
+                return total
+            if ee is False:
+                not_end.append(src(x))
+                return other
+            return None
+
+        def polyfn(e):
+            return _fpoly(e, hook)
+
+        guards = _leading_guards(loop)
+        conj = _rem_conjuncts(_strip_bool(raw), polyfn, [total - posn, other - posn], lambda e: None)
+        for st in guards:
+            conj += _rem_conjuncts(nnf(st.test, True), polyfn, [total - posn, other - posn], lambda e: None)
+        if any(c["idx"] == 1 for c in conj):
+            ctx.ob("R7", "LOOP", g, FTEXT, False, f"the position of the stream is compared with {not_end}, which is not the total length of the stream "
+                   f"(loop condition {src(loop.test)})", loop)
+            return
+        if not any(c["pred"] is not None for c in conj):
             ctx.undecided("R7", "LOOP", g, ltext, f"loop condition {src(loop.test)} is not recognised as `position of the stream < its end`", loop)
+            return
+        if _frames_left_ob(ctx, g, loop, conj, other_exits=_loop_exits(loop, skip=guards)) != "ok":
             return
         extra = [src(ev) for ev in _stream_events(g, carrier) if _in(loop, FuncView.of(g.node).stmt_of(ev)) and ev is not m["ct"] and ev is not m["sig"]
                  and _before(ctx, g, m["sig"], ev) is True]
-        ctx.ob("R7", "LOOP", g, ltext, verdict[0] and not extra,
-               f"one stream walked while {verdict[1]} (must be: position < total length)" + (f"; {extra} moves the stream after the signature" if extra else ""), loop)
+        ctx.ob("R7", "LOOP", g, ltext, not extra,
+               "one stream walked from frame to frame; nothing but the frame fields is read inside the loop" if not extra else
+               f"{extra} moves the stream after the signature", loop)
         return
     # (C) slices of a buffer that is cut down each round
     if not inside:
         ctx.ob("R7", "LOOP", g, ltext, False, f"buffer `{carrier}` is never advanced inside the loop", loop)
         return
-    if not _tests_truth_of(test, carrier):
-        ctx.undecided("R7", "LOOP", g, ltext, f"loop condition {src(loop.test)} is not the emptiness test of `{carrier}`", loop)
+    if _frames_left_buffer(ctx, g, loop, carrier) != "ok":
         return
     upper = _inl(g, m["upper"]) if m.get("upper") is not None else None
     if upper is None:
@@ -1570,21 +2223,6 @@ def _is_rest_read(v, stream):
         return True
     return len(v.args) == 1 and isinstance(v.args[0], ast.Constant) and (v.args[0].value is None or v.args[0].value == -1) or (
         len(v.args) == 1 and _cval(v.args[0]) == -1)
-
-
-def _tests_truth_of(test, name):
-    """Is `test` the non-emptiness test of `name`:  name / len(name) / len(name) > 0 / name != b'' ..."""
-    if dotted(test) == name:
-        return True
-    if isinstance(test, ast.Call) and dotted(test.func) == "len" and len(test.args) == 1 and dotted(test.args[0]) == name:
-        return True
-    for l, op, r in compare_parts(test):
-        if isinstance(l, ast.Call) and dotted(l.func) == "len" and len(l.args) == 1 and dotted(l.args[0]) == name:
-            if (isinstance(op, (ast.Gt, ast.NotEq)) and _cval(r) == 0) or (isinstance(op, ast.GtE) and _cval(r) == 1):
-                return True
-        if dotted(l) == name and isinstance(op, ast.NotEq) and _cval(r) in (b"", None) and isinstance(r, ast.Constant) and r.value == b"":
-            return True
-    return False
 
 
 def _is_end_of(ctx, g, e, stream, wrapped, loop):
